@@ -562,6 +562,41 @@ def r15g(ctx, run):
         raise LookupError("sub-expression lookups with a known home location: %d" % n)
 
 
+def r15h(ctx, run):
+    """which ARGUMENT is tested for constness: evaluate_comptime_args picks the argument of a comptime parameter by the parameter's position
+    (`args.get(idx)`, idx from the enumeration of the parameters).  Positions of parameters and arguments agree only while no `...varargs` parameter
+    (which takes any number of arguments) precedes the comptime parameter: either the argument is selected varargs-aware, or a header with a comptime
+    parameter after a varargs parameter is refused."""
+    import prov
+    G = "hir_ty/src/globals.rs"
+    f = ctx.syn.fn("GlobalInferenceCtx::evaluate_comptime_args", G)
+    P = prov.Prov(f)
+    sites = []
+
+    def on(n, sc):
+        if n.get("k") == "mcall" and n["m"] == "get" and canon(n["r"]).lstrip("&") in f.param_names() and n["a"]:
+            sites.append((n, P.tags(n["a"][0], sc)))
+    P.visit(on)
+    if not sites:
+        raise LookupError("the argument lookup of evaluate_comptime_args")
+    positional = [n for n, t in sites if "m:enumerate" in t and not any(x.startswith("m:varargs") or x == "m:.varargs" for x in t)]
+    if not positional:
+        run.ok(f.site(), "evaluate_comptime_args does not select the argument by the bare parameter position")
+        return
+    # is such a header refused?
+    guards = []
+    for g in ctx.syn.fns_in(G) + ctx.syn.fns_in("hir/src/body.rs"):
+        if g.body is None or g.in_test:
+            continue
+        for n in walk(g.body):
+            if n.get("k") == "if" and "varargs" in canon(n["c"]) and "comptime" in canon(n["c"]) and any(x.get("k") == "mcall" and x["m"] == "push" and "diagnostics" in canon(x["r"]) for x in walk(n["t"])):
+                guards.append((g, n))
+    n0 = positional[0]
+    run.check(bool(guards), f.site(n0["ln"]), "a comptime parameter after a varargs parameter is refused (%s)" % (guards[0][0].qual if guards else ""), f.qual, "comptime-arg-position", f.file, n0["ln"],
+              "evaluate_comptime_args takes the argument at the parameter's own position (`%s`), and no header with a comptime parameter after a `...varargs` parameter is refused: for "
+              "`mk :: (xs: ...str, comptime n: usize, m: usize)` called as `mk(3, x)` the constness test (and the evaluation) is applied to `x` instead of `3`" % canon(n0)[:40])
+
+
 def rules(ctx):
     return [
         Rule("R15.a", "every const position asks get_const first; non-const is reported and not evaluated", 7, r15a),
@@ -569,6 +604,7 @@ def rules(ctx):
         Rule("R15.d", "finish_body: no normal return bypasses the constness test of a global's body (must-pass-through on MIR)", 1, r15d),
         Rule("R15.e", "classifier and evaluator follow a global reference from the location of the expression itself, not from the location under inference", 3, r15e),
         Rule("R15.g", "a sub-expression is looked up in the type tables of the location its node was fetched from (lexically resolved)", 6, r15g),
+        Rule("R15.h", "the argument tested for constness is the comptime parameter's own argument: positional selection needs varargs-free prefixes", 1, r15h),
         Rule("R15.f", "a comptime parameter evaluates to the comptime argument at its comptime_idx (lexically resolved index of every comptime_args() lookup)", 2, r15f),
         Rule("R15.c", "classifier and evaluator agree: Const integer-capable kinds have value-producing const_data arms", 8, r15c),
     ]
